@@ -75,6 +75,7 @@ type pathState struct {
 	choices []uint64
 	queries int
 	incon   int // inconclusive final queries
+	inconNotes []string
 	pcSize  int
 	sample  map[string]interface{}
 	sampleCand *Candidate
@@ -95,6 +96,7 @@ type HarnessStats struct {
 	SampleCands  []Candidate
 	EngineErrors []string
 	BoundNotes   []string
+	InconNotes   []string
 	WallS        float64
 	Inputs       map[string]int // symbolic input names -> width
 }
@@ -116,6 +118,8 @@ type Explorer struct {
 	dump       bool
 	sites      map[string]int
 	tier       int
+	maxWall    time.Duration
+	started    time.Time
 	sampleSeed int64
 	pathSeq    int64
 
@@ -142,6 +146,7 @@ func NewExplorer(p *Program, harness string) *Explorer {
 
 func (ex *Explorer) Run() *HarnessStats {
 	t0 := time.Now()
+	ex.started = t0
 	ex.stack = [][]Decision{nil}
 	var wg sync.WaitGroup
 	for w := 0; w < ex.workers; w++ {
@@ -227,6 +232,11 @@ func (ex *Explorer) worker(id int) {
 		st.Decisions += int64(len(ps.trace))
 		st.Steps += ps.steps
 		st.Inconclusive += ps.incon
+		for _, n := range ps.inconNotes {
+			if len(st.InconNotes) < 10 {
+				st.InconNotes = append(st.InconNotes, n)
+			}
+		}
 		for l := range ps.reached {
 			st.Reached[l]++
 		}
@@ -261,6 +271,10 @@ func (ex *Explorer) worker(id int) {
 		}
 		for _, a := range ps.alts {
 			ex.stack = append(ex.stack, a)
+		}
+		if ex.maxWall > 0 && time.Since(ex.started) > ex.maxWall && !ex.stopped {
+			ex.stopped = true
+			st.BoundNotes = append(st.BoundNotes, fmt.Sprintf("wall-clock limit %s reached after %d paths; %d prefixes unexplored", ex.maxWall, st.Paths, len(ex.stack)))
 		}
 		if st.Paths >= ex.maxPaths && !ex.stopped {
 			ex.stopped = true
@@ -354,6 +368,11 @@ func (i *interpreter) decide(cond *Term, label string) bool {
 	}
 	if rT == Unknown || rF == Unknown {
 		ps.incon++
+		site := "?"
+		if fr := i.top; fr != nil {
+			site = shortFn(fr.fn.String())
+		}
+		ps.inconNotes = append(ps.inconNotes, "branch kept both ways in "+site)
 	}
 	// both sides (possibly) feasible: take true now, schedule false
 	if ps.ex.profile {
@@ -531,6 +550,7 @@ func (i *interpreter) checkAssert(c value, label string) {
 			i.assertPC(x.T)
 		case Unknown:
 			ps.incon++
+			ps.inconNotes = append(ps.inconNotes, "assertion undecided: "+label)
 			i.assertPC(x.T)
 		}
 	default:
